@@ -130,6 +130,15 @@ def pinned_cases():
                         "seed": 9000 + len(out), "budget": 6000, "yield": "fan", "inline": 1,
                         "strategy": ["uniform", "starveD", "eagerD"][len(out) % 3],
                         "opts": {"labels": 1, "sopt": 0, "nofile": nofile}})
+    #     soft limit below the hard limit: the prologue raises it iff it does not exceed 2*fanout+32 (protocol
+    #     granularity without inline logging: these go through the environment LTS, Dsh/FanX.lean)
+    for hard, soft in ((64, 30), (40, 33), (64, 34), (64, 36), (64, 37), (200, 100), (35, 34)):
+        for f in (1, 2):
+            out.append({"fanout": f, "hosts": [{"name": "r%d" % i, "out": [[0, ("l%d\n" % i).encode().hex()]]}
+                                               for i in range(3)],
+                        "seed": 9000 + len(out), "budget": 6000, "yield": "fan", "inline": 0,
+                        "strategy": ["uniform", "starveD", "eagerD"][len(out) % 3],
+                        "opts": {"labels": 1, "sopt": 0, "nofile": hard, "nofile_soft": soft}})
     # (e) pthread_create fails once (EAGAIN) for the worker of target i, while others run or not: pdsh may give up
     #     (exit non-zero, as it does) or try again -- but it must not go on WITHOUT that target, nor hang
     for i in range(3):
@@ -138,7 +147,8 @@ def pinned_cases():
                                                for j in range(3)],
                         "seed": 9000 + len(out), "budget": 6000, "yield": "fan", "inline": 0,
                         "strategy": ["uniform", "starveD", "eagerD"][len(out) % 3],
-                        "opts": {"labels": 1, "sopt": 0, "createfail": i}, "createfail_case": True})
+                        "opts": {"labels": 1, "sopt": 0, "createfail": i, "k": (i + f) % 2},
+                        "createfail_case": True})
     for c in out:
         c["pinned"] = True
     return out
@@ -160,7 +170,7 @@ def replay_case(ctx, prop, exe, variant):
     if not isinstance(case, dict) or "hosts" not in case:
         ctx.log("replay: the file names no schedule; re-run the tier instead")
         return None
-    mem = "mem" in case.get("yield", "") or bool(case.get("createfail_case"))
+    mem = "mem" in case.get("yield", "")
     if "mem" in case.get("yield", "") and getattr(ctx, "exe_mem", None):
         exe = ctx.exe_mem                   # recorded at memory-access granularity
     res = sched.run_case(exe, case, ctx.scratch)
@@ -261,8 +271,7 @@ def explore_all(ctx, prop, exe_san, exe, variant, cov, dist):
         # two calls to the earlier call, which is exactly what those runs do not do
         batches = [sched.project_fan(r, variant, relay=sched.relay_capable(r["case"]))
                    if r["crash"] is None and not r["bug"] and
-                   "mem" not in r["case"].get("yield", "") and not r["case"].get("signals_case") and
-                   not r["case"].get("createfail_case") else None
+                   "mem" not in r["case"].get("yield", "") and not r["case"].get("signals_case") else None
                    for r in results]
         dist["through_composed_acceptor"] = dist.get("through_composed_acceptor", 0) + \
             sum(1 for b in batches if b is not None and b[0].startswith("initr"))
